@@ -280,7 +280,7 @@ def run_contracts(reg, contracts, lemmas, want_models=True):
     skip = set(twin.values())
     cover_idx = {j for (_o, vc, j) in meta if j is not None and vc.kind == "cover"}
     again = [j for j in range(len(res)) if res[j]["result"] == "unknown" and j not in cover_idx and j not in skip]
-    if again and len(again) <= 24:
+    if again and len(again) <= 6:
         jobs3 = []
         for j in again:
             smt2, _t, rb, _c = full_jobs.get(j, jobs[j])
